@@ -263,5 +263,13 @@ def evolve_files(root: Path, rng: random.Random, allow_delete_page: bool = True)
             if t2 is not None:
                 t = t2
                 log.append(f"edit body in {p.name}")
+        orig = p.read_text()
         p.write_text(t)
+        # removing a link / tag can leave an item without body: such an edit is not a valid page any more and is undone
+        from zmon import harness
+
+        c = harness.compile_path(root, p.relative_to(root))
+        if c.exc is not None or c.parser_errors:
+            p.write_text(orig)
+            log.append(f"(edit of {p.name} undone: not a valid page)")
     return log
